@@ -29,6 +29,8 @@ func runC01(p *Prog, r *Report) {
 	ruleBudget(p, r, budgetCfg{pkg: "harfbuzz", typ: "Buffer", info: "Info", budgets: []string{"maxOps", "maxLen"},
 		entryPkg: "harfbuzz", entryRecv: "shaperOpentype", entry: "shape",
 		loopRecv: "otMap", loopFn: "apply", loopCallee: "applyString", loopCalleeRecv: "otApplyContext", loopBudget: "maxLen"})
+	r.Explain = append(r.Explain, "R-DIV: every integer division or remainder in the shaping engine whose divisor is not a non-zero constant has a provably non-zero divisor (dominating test, switch cases, non-zero field/result/argument everywhere, 1<<n) or a reviewed reason: a zero divisor is a run-time panic.")
+	ruleDiv(p, r, []string{"harfbuzz", "shaping", "segmenter", "font"}, reviewedDivs(), 8)
 	r.Assumptions = append(r.Assumptions,
 		"termination of loops (as opposed to recursion) is not decided",
 		"cluster monotonicity, rune/glyph count sums and output size proportional to input are NOT decided (runtime arithmetic)",
